@@ -315,8 +315,8 @@ def protocol_signature(repo, f):
 
 
 @guarded
-def rule_bcast(repo, tier):
-    res = RuleResult('C06.BCAST', 'each binary Type method follows the flatten-broadcast-unflatten protocol: operands pass through '
+def rule_bcast(repo, tier, pid='C06'):
+    res = RuleResult(pid + '.BCAST', 'each binary Type method follows the flatten-broadcast-unflatten protocol: operands pass through '
                      'broadcast_inputs, the family\'s own autograd op is applied to its result, the output is viewed to out_shape + (dim,) '
                      'with the empty-batch fallback; broadcast_inputs returns the true (unpadded) broadcast shape', floor=21)
     for G in GROUPS:
@@ -328,16 +328,16 @@ def rule_bcast(repo, tier):
             ok = sig['broadcast'] and sig['ops'] == want_ops and sig['view_out_shape'] and sig['empty_fallback'] and sig['ops_on_broadcast']
             res.inst({'function': f.fq, 'signature': {k: (sorted(v) if isinstance(v, set) else v) for k, v in sig.items()}, 'ok': ok}, f.fq)
             if not sig['broadcast']:
-                res.add(Finding('C06.BCAST', f, '%sType.%s does not pass its operands through broadcast_inputs' % (G, meth), construct='no broadcast'))
+                res.add(Finding(pid + '.BCAST', f, '%sType.%s does not pass its operands through broadcast_inputs' % (G, meth), construct='no broadcast'))
             elif sig['ops'] != want_ops:
-                res.add(Finding('C06.BCAST', f, '%sType.%s applies %s, expected %s' % (G, meth, sorted(sig['ops']), sorted(want_ops)), construct='ops'))
+                res.add(Finding(pid + '.BCAST', f, '%sType.%s applies %s, expected %s' % (G, meth, sorted(sig['ops']), sorted(want_ops)), construct='ops'))
             elif not sig['ops_on_broadcast']:
-                res.add(Finding('C06.BCAST', f, '%sType.%s applies its op to operands that did not come from broadcast_inputs' % (G, meth),
+                res.add(Finding(pid + '.BCAST', f, '%sType.%s applies its op to operands that did not come from broadcast_inputs' % (G, meth),
                                 construct='op operands'))
             elif not sig['view_out_shape']:
-                res.add(Finding('C06.BCAST', f, '%sType.%s does not view its result to out_shape + (dim,)' % (G, meth), construct='view'))
+                res.add(Finding(pid + '.BCAST', f, '%sType.%s does not view its result to out_shape + (dim,)' % (G, meth), construct='view'))
             elif not sig['empty_fallback']:
-                res.add(Finding('C06.BCAST', f, '%sType.%s lost the empty-batch fallback of the last dimension' % (G, meth), construct='empty'))
+                res.add(Finding(pid + '.BCAST', f, '%sType.%s lost the empty-batch fallback of the last dimension' % (G, meth), construct='empty'))
     # BSHAPE
     OPM = 'pypose.lietensor.operation'
     f = repo.func(OPM, 'broadcast_inputs')
@@ -357,11 +357,29 @@ def rule_bcast(repo, tier):
         res.inst({'function': f.fq, 'returned_shape': src(shp)[:80], 'true_broadcast_shape': ok}, (f.fq, n))
         if not ok:
             ok_all = False
-            res.add(Finding('C06.BSHAPE', f, 'broadcast_inputs returns `%s` as output shape: it must be the unpadded torch.broadcast_shapes of '
+            res.add(Finding(pid + '.BSHAPE', f, 'broadcast_inputs returns `%s` as output shape: it must be the unpadded torch.broadcast_shapes of '
                             'the two lshapes (the (1,) padding is only the internal work shape), otherwise un-batched operands come back '
                             'with lshape (1,)' % src(shp)[:80], node=r))
     if n == 0:
-        raise AnalysisError('C06.BSHAPE: broadcast_inputs no longer returns (operands, shape)')
+        raise AnalysisError(pid + '.BSHAPE: broadcast_inputs no longer returns (operands, shape)')
+    # the batch axes of the two operands are aligned by torch's rule (from the back) and by nothing else: broadcast_shapes sees the lshapes of the operands AS
+    # GIVEN.  An operand that is unsqueezed / reshaped first under a test on ranks or shapes ("one pose per group of points": (B, 7) with (B, N, 3)) adds a second
+    # alignment rule; where both rules apply - lshapes (N,) and (N, N) - the result silently switches from column-wise to row-wise pairing
+    bs = [c for c in ast.walk(f.node) if isinstance(c, ast.Call) and dotted(c.func) == 'torch.broadcast_shapes']
+    if bs:
+        first = min(c.lineno for c in bs)
+        params = set(f.pos_params)
+        for a in ast.walk(f.node):
+            if isinstance(a, ast.Assign) and a.lineno < first:
+                for t in a.targets:
+                    for x in ([t] if isinstance(t, ast.Name) else [y for y in ast.walk(t) if isinstance(y, ast.Name)]):
+                        if x.id in params and any(isinstance(c, ast.Call) and isinstance(c.func, ast.Attribute) and c.func.attr in ('unsqueeze', 'view', 'reshape', 'expand', 'squeeze', 'flatten')
+                                                  or isinstance(c, ast.Subscript) and any(isinstance(y, ast.Constant) and y.value is None for y in ast.walk(c.slice))
+                                                  for c in ast.walk(a.value)):
+                            res.inst({'function': f.fq, 'operand re-shaped before the broadcast': src(a)[:60]}, (f.fq, 'pre', src(a)[:60]))
+                            res.add(Finding(pid + '.BSHAPE', f, '`%s` changes the rank / shape of an operand BEFORE torch.broadcast_shapes aligns the batch axes: a second alignment '
+                                            'rule next to torch\'s; for lshapes both rules accept (e.g. (N,) with (N, N)) the pairing of items changes silently' % src(a)[:60],
+                                            node=a, construct='operand reshaped before broadcast|' + x.id))
     return res
 
 
@@ -660,6 +678,28 @@ def rule_ownmem(repo, tier):
 
 
 @guarded
+def rule_postcheck(repo, tier, rid='C06.POSTCHK'):
+    """__torch_function__ runs the torch operation FIRST (Tensor.__torch_function__) and dresses the result afterwards.  For the in-place members of the handled list
+    (copy_, index_copy_, index_put_, __setitem__ ...) the destination is already overwritten when that call returns: a consistency check placed after it
+    (an assert that all LieTensor arguments share one ltype) rejects the operation after it has happened - the caller catches the error and keeps a clobbered
+    tensor.  After the operation there are only warnings."""
+    res = RuleResult(rid, 'LieTensor.__torch_function__ raises nothing (no assert / raise) after Tensor.__torch_function__ has executed the operation', floor=1)
+    f = repo.func(LT, 'LieTensor.__torch_function__')
+    calls = [c for c in ast.walk(f.node) if isinstance(c, ast.Call) and (dotted(c.func) or '').endswith('Tensor.__torch_function__') or
+             isinstance(c, ast.Call) and isinstance(c.func, ast.Attribute) and c.func.attr == '__torch_function__' and isinstance(c.func.value, ast.Call) and dotted(c.func.value.func) == 'super']
+    if not calls:
+        raise AnalysisError(rid + ': the delegation to Tensor.__torch_function__ was not found')
+    first = min(c.lineno for c in calls)
+    late = [n for n in ast.walk(f.node) if isinstance(n, (ast.Assert, ast.Raise)) and n.lineno > first]
+    res.inst({'function': f.fq, 'operation executed at line': first, 'assert / raise after it': [src(x)[:50] for x in late]}, f.fq)
+    for x in late:
+        res.add(Finding(rid, f, '`%s` can reject the call AFTER the torch operation has run: for copy_ / index_put_ / __setitem__ the destination is overwritten before the '
+                        'error is raised, so the element the caller keeps after catching it is neither the old nor a valid new one' % src(x)[:60].replace('\n', ' '), node=x,
+                        construct='check after the operation'))
+    return res
+
+
+@guarded
 def rule_width(repo, tier):
     """The storage width of a LieTensor (the extent of its last axis) is `ltype.dimension`; `embedding` and `manifold` are other numbers for the algebra types
     (so3: dimension 3, embedding 4).  Everything that checks or builds the last axis - the constructor's assertion, the ltype re-attachment in
@@ -684,7 +724,7 @@ def rule_width(repo, tier):
 
 
 def _rules_core(repo, tier):
-    return [rule_like(repo, tier), rule_domain(repo, tier), rule_mut(repo, tier), rule_patch(repo, tier), rule_bcast(repo, tier), rule_wrap(repo, tier), rule_dtype(repo, tier), rule_width(repo, tier), rule_ownmem(repo, tier), __import__('sa.rules.c03', fromlist=['x']).rule_mat(repo, 'C06.MAT')]
+    return [rule_like(repo, tier), rule_domain(repo, tier), rule_mut(repo, tier), rule_patch(repo, tier), rule_bcast(repo, tier), rule_wrap(repo, tier), rule_dtype(repo, tier), rule_width(repo, tier), rule_ownmem(repo, tier), rule_postcheck(repo, tier), __import__('sa.rules.c03', fromlist=['x']).rule_mat(repo, 'C06.MAT'), __import__('sa.mode', fromlist=['x']).rule_tempset(repo, 'C06.TEMPJAC', ['pypose.func.jac'])]
 
 
 def rules(repo, tier):
